@@ -62,11 +62,11 @@ CHECKS = {
              "another member holds the UID now, an acknowledged write never creates a second holder, uniqueness is an "
              "invariant of every history, and the answer does not depend on the cache (restart transparency). Tied to "
              "/repo by differential histories on all four back ends plus a Lean monitor on the implementation trace. "
-             "The except tables that turn a store refusal into the HTTP answer (set_body, create_member, PUT, POST) are TRANSLATED from /repo on every run and proved to compose to the model's mapping (DuplicateUidError -> no-uid-conflict on every write path). After the repair e675e71 an upload is opened as the type it is read back as; the handler part of the coherence hypothesis is proved for every declared content type.",
+             "_check_duplicate (git and vdir: UID test, then replace_etag test) and _forget_uid are TRANSLATED from /repo on every run and proved equal to the model's dupError/etagError/forget. The except tables that turn a store refusal into the HTTP answer (set_body, create_member, PUT, POST) are TRANSLATED from /repo on every run and proved to compose to the model's mapping (DuplicateUidError -> no-uid-conflict on every write path). After the repair e675e71 an upload is opened as the type it is read back as; the handler part of the coherence hypothesis is proved for every declared content type.",
         note="correspondence is sampling; UIDs are what icalendar reports for a body (computed by the harness, not by "
              "xandikos); uniqueness is proved for histories whose uploads are 'coherent' (handler by content type = "
              "handler by extension, normalisation keeps the UID) — incoherent uploads are exercised by the harness only.",
-        tech="Python->Lean translation (except tables) + Lean 4 loop-invariant proof of the UID cache + history induction + differential correspondence",
+        tech="Python->Lean translation (_check_duplicate, _forget_uid, except tables) + Lean 4 loop-invariant proof of the UID cache + history induction + differential correspondence",
         ref="5/C06"),
     "C07": dict(
         text="Proof that the tree diff behind sync-collection is exact (member reported changed/removed iff it differs/"
